@@ -46,6 +46,8 @@ type round struct {
 	// passes wait=true instead of polling with wait=false
 	Hold int  `json:"packets_arriving_while_the_consumer_is_underway,omitempty"`
 	Wait bool `json:"consumer_waits,omitempty"`
+	// Normal: the response arrives in packets of type NORMAL (15) instead of RESPONSE (4)
+	Normal bool `json:"packet_type_normal,omitempty"`
 }
 
 type c03Case struct {
@@ -113,7 +115,12 @@ func runCase(c c03Case) (f *vh.Failure) {
 		if err != nil {
 			vh.HarnessBug("encode: %v", err)
 		}
-		packets := rc.Packetise(stream, r.Cuts, rc.BufResponse, 0)
+		ptype := byte(rc.BufResponse)
+		if r.Normal {
+			ptype = rc.BufNormal
+			vh.Label("packets-of-type-normal")
+		}
+		packets := rc.Packetise(stream, r.Cuts, ptype, 0)
 		hold := r.Hold
 		if hold >= len(packets) {
 			hold = len(packets) - 1
@@ -137,7 +144,7 @@ func runCase(c c03Case) (f *vh.Failure) {
 				if len(r.Extra) > 0 {
 					st |= byte(r.Extra[i%len(r.Extra)])
 				}
-				ch.WritePacket(&tds.Packet{Header: tds.PacketHeader{MsgType: tds.TDS_BUF_RESPONSE, Status: tds.PacketHeaderStatus(st), Length: uint16(8 + len(p.Body))}, Data: p.Body})
+				ch.WritePacket(&tds.Packet{Header: tds.PacketHeader{MsgType: tds.PacketHeaderType(p.Type), Status: tds.PacketHeaderStatus(st), Length: uint16(8 + len(p.Body))}, Data: p.Body})
 			}
 			return nil
 		}
@@ -406,6 +413,7 @@ func genRound(rt *rapid.T) round {
 		r.Hold = rapid.IntRange(1, 3).Draw(rt, "hold")
 	}
 	r.Wait = rapid.IntRange(0, 2).Draw(rt, "wait") == 0
+	r.Normal = rapid.IntRange(0, 3).Draw(rt, "normal") == 0
 	r.Strategy = rapid.SampledFrom([]string{"next", "until", "until", "nilcb"}).Draw(rt, "strategy")
 	if r.Strategy == "until" {
 		n := rapid.IntRange(0, 8).Draw(rt, "planlen")
